@@ -16,6 +16,9 @@ import (
 
 var c04Files = Files{"x.d2": "p: {q}\np -> r\n"}
 
+// c04FilesAll: the fragment's x.d2 plus the files the full-language core statements import.
+var c04FilesAll = Files{"x.d2": "p: {q}\np -> r\n", "y.d2": "...@x\nz: 1\n", "d/x.d2": "w: {icon: ./i.png}\n", "f.d2": "k\n...${v}\nm: {n}\n"}
+
 // ---- C04 -----------------------------------------------------------------------------------------
 
 var c04Stmts = []string{
@@ -35,7 +38,7 @@ var c04Stmts = []string{
 }
 
 func c04Oracle(in string) eng.Res {
-	g1, cfg1, err := CompileFS("index.d2", in, c04Files)
+	g1, cfg1, err := CompileFS("index.d2", in, c04FilesAll)
 	if err != nil || g1 == nil {
 		return eng.OK("uncompilable", false)
 	}
@@ -44,9 +47,13 @@ func c04Oracle(in string) eng.Res {
 		return eng.OK("uncompilable", false)
 	}
 	y := d2format.Format(m)
-	g2, cfg2, err := CompileFS("index.d2", y, c04Files)
+	g2, cfg2, err := CompileFS("index.d2", y, c04FilesAll)
 	if err != nil {
-		return eng.Bad("formatted-text-does-not-compile:"+c04Mech(in, m, "")+":"+fmtErrKind2(err), fmt.Sprintf("input %q\nformatted %q\nerror %v", in, y, err))
+		mech := c04Mech(in, m, "")
+		if mech == "" {
+			mech = fmtErrKind2(err) // no named mechanism: classify by the error
+		}
+		return eng.Bad("formatted-text-does-not-compile:"+mech, fmt.Sprintf("input %q\nformatted %q\nerror %v", in, y, err))
 	}
 	// order of objects/connections is not part of C04's statement (and depends on source positions, which formatting changes)
 	unordered := CanonOpts{SortObjects: true, SortChildren: true}
@@ -441,6 +448,9 @@ func init() {
 				for _, src := range Corpus() {
 					w.Eval("fmt-meaning", src)
 				}
+			})
+			w.Phase("full-language-core-pairs", func() {
+				Seqs(c07Core, 2, func(s []string) { w.Eval("fmt-meaning", strings.Join(s, "\n")) })
 			})
 			if w.Thorough() {
 				lvl(4) // deepest level last: it may hit the internal deadline
